@@ -490,6 +490,7 @@ type sessA struct{ *sess }
 
 func (s *sessA) AuthMechanisms() []string {
 	s.b.add(&Event{Sess: s.id, Kind: "AuthMechs", Ended: true})
+	s.b.gate(fmt.Sprintf("cb:AuthMechanisms#%d", s.id))
 	return s.b.Mechs
 }
 
